@@ -12,14 +12,13 @@ PROP = {'drive': ['Dsl'],
                        'C19_no_leak',
                        'C19_no_leak_general',
                        'C19_leak_before_repair',
-                       'C19_roundtrip_gsub1_partial',
+                       'C19_roundtrip_gsub1',
                        'C19_roundtrip_gsub2',
                        'C19_roundtrip_gsub3',
-                       'C19_roundtrip_gsub4_partial',
-                       'C19_roundtrip_subtables_partial',
+                       'C19_roundtrip_gsub4',
+                       'C19_roundtrip_lists',
                        'C19_roundtrip_gpos1_partial',
                        'C19_roundtrip_gpos2_partial',
-                       'C19_roundtrip_lists_partial',
                        'C19_glyphlist_roundtrip',
                        'C19_total_partial'],
  'areas': [('dsl', 6000, 60000)],
